@@ -66,3 +66,30 @@ Definition run_hsmq_case (x : sx) : sx :=
       end
   | _ => L [N 0]
   end.
+
+(* ---------- unqueued hierarchical machine whose callbacks trigger events (HReent.v) ---------- *)
+From M Require Import HReent.
+Fixpoint hr_history (hm : hmachine) (ev : env) (m : model) (fuel : nat) (hs : list (event * nat))
+                    (p : nat) (s : forest) : list sx :=
+  match hs with
+  | [] => []
+  | (e, a) :: rest =>
+      match hrtrigger hm ev m fuel e a p s with
+      | (tr, s', r) =>
+          L [e_list e_hitem tr; e_result r; e_forest s'] :: hr_history hm ev m fuel rest (p + length tr) s'
+      end
+  end.
+
+(* case := [hmachine; env; model id; initial path; history [(event, payload)]] *)
+Definition run_hreent_case (x : sx) : sx :=
+  match x with
+  | L [mcx; evx; N m; inix; hx] =>
+      match d_hmachine mcx, d_env evx, d_path inix,
+            d_list (fun y => match y with L [N e; N a] => Some (e, a) | _ => None end) hx with
+      | Some hm, Some ev, Some ini, Some hs =>
+          let f0 := initial_config hm ini in
+          L [N 1; e_forest f0; L (hr_history hm ev m 12 hs 0 f0)]
+      | _, _, _, _ => L [N 0]
+      end
+  | _ => L [N 0]
+  end.
